@@ -1,15 +1,51 @@
 /-
   WS.Props.C17 — arbitrary server bytes: documented exceptions only, progress, bounded requests.
+  Frame phase: WS.Lemmas.{Total,Sizes}; handshake phase: WS.Lemmas.Http (head-phase models).
 -/
-import WS.Model.Conn
+import WS.Lemmas.Total
+import WS.Lemmas.Sizes
+import WS.Lemmas.Http
 namespace WS.Props.C17
-open WS WS.Model
+open WS WS.Model WS.Lemmas.RecvStrict WS.Lemmas.Parser WS.Lemmas.Total WS.Lemmas.Sizes
 
 theorem cap_value : Gen.recvCap = 16384 := by decide
 
-/-- every size the model passes to the transport's `recv` from `recv_strict` is `min(cap, shortage)`:
-    at most the generated cap, whatever length the peer declared. -/
-theorem request_size_le_cap (shortage : Nat) : min Gen.recvCap shortage ≤ 16384 := by
-  rw [cap_value]; omega
+/-- **C17_frame_no_internal** — frame phase: whatever bytes the server sends (ANY byte string, in ANY
+    chunking), followed by end of stream or silence, a `recv_frame` call from a cleared parser returns a
+    frame or raises PROTO, CLOSED or TIMEOUT: never IndexError/struct.error/TypeError/…, and never runs out
+    of fuel — i.e. it cannot spin without consuming input. -/
+theorem C17_frame_no_internal (c : Conn) (hl : Live c) (hch : Chunks c.sock.inp) (hclr : Cleared c)
+    (e : Exn) (he : c.recvFrame.1 = .error e) : e = .proto ∨ e = .closed ∨ e = .timeout :=
+  recvFrame_benign c hl hch hclr e he
+
+/-- **C17_request_sizes** — for EVERY state, EVERY transport script (chunks, timeouts, waits, eof, reset)
+    and EVERY length the peer declares (up to 2^64-1), each size `recv_frame` passes to the transport's
+    `recv` is at most 16384: the request is never driven by a length the peer merely declared. -/
+theorem C17_request_sizes (c : Conn) :
+    ∀ x ∈ c.recvFrame.2.sock.recvSizes, x ∈ c.sock.recvSizes ∨ x ≤ 16384 := by
+  intro x hx
+  have := recvFrame_sizes c x hx
+  rwa [cap_value] at this
+
+/-- non-vacuity: a header declaring 2^63-1 bytes with a 5-byte body: the model asks for 16384, never more,
+    and ends in CLOSED. -/
+example :
+    let c : Conn := { sock := { inp := [.chunk ([0x82, 0x7F, 0x7F, 0xFF, 0xFF, 0xFF, 0xFF, 0xFF, 0xFF, 0xFF] ++ [1, 2, 3, 4, 5])] } }
+    c.recvFrame.1 = .error .closed ∧ c.recvFrame.2.sock.recvSizes.foldl max 0 = 16384 := by
+  decide
+
+open WS.Lemmas.Http WS.Model.Http WS.Model.Handshake WS.H2 in
+/-- **C17_head_no_internal** — handshake phase: for every transport script, `read_headers` ends in a
+    documented exception or returns; `_get_resp_headers` likewise, and every size it asks of the transport is
+    1 (head) or at most 16384 (error body), whatever Content-Length says. (Proved over the head-phase models
+    in WS.Lemmas.Http; the repaired guards are generated facts.) -/
+theorem C17_head_no_internal (s : WS.Model.Http.Sock) :
+    (∀ e s' k, readHeaders s = (.error e, s', k) → Documented e) ∧
+    (∀ e s' io, getRespHeaders s = (.error e, s', io) → Documented e) ∧
+    (∀ r s' io, getRespHeaders s = (r, s', io) → ∀ ev ∈ io, ∃ n, ev = IoEv.recv n ∧ n ≤ 16384) := by
+  refine ⟨fun e s' k h => readHeaders_err s e s' k h, (getRespHeaders_err_sizes s).1, ?_⟩
+  intro r s' io h ev hev
+  obtain ⟨n, h1, h2⟩ := (getRespHeaders_err_sizes s).2 r s' io h ev hev
+  exact ⟨n, h1, by rw [guards.2.2.2.2.1] at h2; exact h2⟩
 
 end WS.Props.C17
